@@ -425,10 +425,10 @@ Proof.
 Qed.
 
 (* three characters: accepted exactly when each is '0'..'2', and then it is the canonical string *)
-Lemma rp_string3_sound : forall a b c r, rp_from_string [a; b; c] = Some r ->
+Lemma rp_string3_sound : forall a b c r, rp_parse 0 [a; b; c] (0, 0, 0) = Some r ->
   rp_valid r = true /\ rp_string r = [a; b; c].
 Proof.
-  intros a b c r H. unfold rp_from_string in H. cbn [rp_parse] in H.
+  intros a b c r H. cbn [rp_parse] in H.
   destruct ((48 <=? a) && (a <=? 50)) eqn:Ea; [|discriminate].
   change (0 =? 0) with true in H. cbn iota in H. cbn [rp_parse] in H.
   destruct ((48 <=? b) && (b <=? 50)) eqn:Eb; [|discriminate].
@@ -450,23 +450,33 @@ Proof.
   destruct r as [[dc rack] same]. constructor; [lia|]. eapply IH; eassumption.
 Qed.
 
-(* trigger of the known finding "replica placement strings of length <> 3 are accepted" *)
-Definition rp_len_trigger (s : list N) : bool := negb (len s =? 3).
-
-Lemma rp_string_reject_partial : forall s r, rp_len_trigger s = false -> rp_from_string s = Some r ->
-  rp_valid r = true /\ rp_string r = s.
+Lemma len3_inv : forall (s : list N), len s = 3 -> exists a b c, s = [a; b; c].
 Proof.
-  intros s r Ht H. unfold rp_len_trigger in Ht.
-  destruct s as [|a [|b [|c [|d s]]]]; try (cbn in Ht; discriminate).
-  - apply rp_string3_sound. assumption.
-  - rewrite !len_cons in Ht. lia.
+  intros s H. destruct s as [|a [|b [|c [|d s]]]]; try (cbn in H; discriminate).
+  - exists a, b, c. reflexivity.
+  - rewrite !len_cons in H. lia.
 Qed.
 
-Lemma rp_string_reject_refuted : exists s r, rp_from_string s = Some r /\ rp_string r <> s.
-Proof. exists [49], (1, 0, 0). split; [reflexivity|discriminate]. Qed.
+(* repaired code: an accepted string is the empty string (the default placement 000) or the
+   3-character encoding of the valid placement returned *)
+Lemma rp_string_reject : forall s r, rp_from_string s = Some r ->
+  rp_valid r = true /\ ((s = [] /\ r = (0, 0, 0)) \/ rp_string r = s).
+Proof.
+  intros s r H. unfold rp_from_string in H.
+  destruct (negb (len s =? 0) && negb (len s =? 3)) eqn:E; [discriminate|].
+  assert (Hl : len s = 0 \/ len s = 3) by lia. destruct Hl as [Hl|Hl].
+  - apply len_zero_nil in Hl. subst s. cbn [rp_parse] in H. inversion H; subst.
+    split; [reflexivity|]. left. split; reflexivity.
+  - destruct (len3_inv s Hl) as [a [b [c ->]]].
+    destruct (rp_string3_sound a b c r H) as [Hv Hs]. split; [assumption|]. right. assumption.
+Qed.
 
 Lemma rp_string_chars : forall s r, rp_from_string s = Some r -> Forall (fun c => 48 <= c <= 50) s.
-Proof. intros s r H. eapply rp_parse_chars. exact H. Qed.
+Proof.
+  intros s r H. unfold rp_from_string in H.
+  destruct (negb (len s =? 0) && negb (len s =? 3)); [discriminate|].
+  eapply rp_parse_chars. exact H.
+Qed.
 
 Lemma reject_examples :
   read_ttl [51; 48; 48; 109] = None            (* "300m" *)
@@ -478,6 +488,8 @@ Lemma reject_examples :
   /\ new_volume_id [] = None
   /\ parse_file_id [51; 44; 48; 49; 54; 51; 55; 48; 51; 122; 100; 54] = None  (* "3,0163703zd6" *)
   /\ rp_from_string [48; 48; 51] = None        (* "003" *)
+  /\ rp_from_string [49] = None                (* "1" *)
+  /\ rp_from_string [48; 48; 49; 49] = None    (* "0011" *)
   /\ rp_from_byte 3 = None /\ rp_from_byte 255 = None.
 Proof. vm_compute. repeat split; reflexivity. Qed.
 
@@ -503,13 +515,18 @@ Proof.
     + rewrite <- be_encode_2, be_decode_encode_mod. reflexivity.
 Qed.
 
-Lemma sb_read_bytes : forall s tail, sb_ok s -> len (sb_extra s) < 65536 ->
-  sb_read (sb_bytes s ++ tail) =
-    if sb_has_extra s then None
+Lemma sb_read_bytes : forall pb s tail, sb_ok s -> len (sb_extra s) < 65536 ->
+  sb_read pb (sb_bytes s ++ tail) =
+    if sb_has_extra s then
+      match pb (sb_extra s) with
+      | Some e => Some {| sb_version := sb_version s; sb_rp := sb_rp s; sb_ttl := sb_ttl s;
+                          sb_compaction := sb_compaction s; sb_extra := e |}
+      | None => None
+      end
     else Some {| sb_version := sb_version s; sb_rp := sb_rp s; sb_ttl := sb_ttl s;
                  sb_compaction := sb_compaction s; sb_extra := [] |}.
 Proof.
-  intros s tail [Hv [Hrp [Hc [Hu Hcomp]]]] Hx.
+  intros pb s tail [Hv [Hrp [Hc [Hu Hcomp]]]] Hx.
   destruct (sb_bytes_shape s) as [e1 [e2 [Hs He]]]. rewrite Hs. clear Hs.
   set (front := [sb_version s; rp_byte (sb_rp s); fst (sb_ttl s); snd (sb_ttl s)]).
   assert (Hf6 : len (front ++ be_encode 2 (sb_compaction s)) = 6) by reflexivity.
@@ -528,43 +545,63 @@ Proof.
   destruct (sb_rp s) as [[dc rack] same] eqn:Erp.
   unfold rp_valid in Hrp.
   rewrite rp_byte_roundtrip by lia.
-  rewrite <- !app_assoc.
-  rewrite (app_assoc front), dropN_app by exact Hf6.
-  change ([e1; e2] ++ sb_extra s ++ tail) with ([e1; e2] ++ (sb_extra s ++ tail)).
-  rewrite takeN_app by reflexivity. rewrite He, N.mod_small by lia.
-  rewrite <- (app_assoc front).
-  change (front ++ be_encode 2 (sb_compaction s) ++ [e1; e2] ++ sb_extra s ++ tail)
-    with (front ++ (be_encode 2 (sb_compaction s) ++ [e1; e2] ++ sb_extra s ++ tail)).
-  rewrite dropN_app by reflexivity. rewrite takeN_app by reflexivity.
+  set (F := ((front ++ be_encode 2 (sb_compaction s)) ++ [e1; e2] ++ sb_extra s) ++ tail).
+  assert (H6 : dropN 6 F = [e1; e2] ++ (sb_extra s ++ tail)).
+  { unfold F. rewrite <- !app_assoc. rewrite (app_assoc front). apply dropN_app. exact Hf6. }
+  assert (H4 : dropN 4 F = be_encode 2 (sb_compaction s) ++ ([e1; e2] ++ sb_extra s ++ tail)).
+  { unfold F. rewrite <- !app_assoc. apply dropN_app. reflexivity. }
+  assert (H8 : dropN 8 F = sb_extra s ++ tail).
+  { assert (HF : F = ((front ++ be_encode 2 (sb_compaction s)) ++ [e1; e2]) ++ (sb_extra s ++ tail))
+      by (unfold F; rewrite <- !app_assoc; reflexivity).
+    rewrite HF. apply dropN_app. rewrite len_app, Hf6. reflexivity. }
+  rewrite H6, H4, H8.
+  rewrite (takeN_app _ [e1; e2]) by reflexivity. rewrite He, N.mod_small by lia.
+  rewrite (takeN_app _ (be_encode 2 (sb_compaction s))) by reflexivity.
   rewrite be_decode_encode by assumption.
+  rewrite (takeN_app _ (sb_extra s)) by reflexivity. rewrite N.ltb_irrefl.
   unfold sb_has_extra. destruct (len (sb_extra s) =? 0) eqn:E0; cbn [negb].
   - destruct (0 <? len (sb_extra s)) eqn:E1; [lia|].
     destruct (sb_ttl s) as [c u]. reflexivity.
-  - destruct (0 <? len (sb_extra s)) eqn:E1; [reflexivity|lia].
+  - destruct (0 <? len (sb_extra s)) eqn:E1; [|lia].
+    destruct (sb_ttl s) as [c u]. reflexivity.
 Qed.
 
-Lemma sb_roundtrip_partial : forall s tail, sb_has_extra s = false -> sb_ok s ->
-  sb_read (sb_bytes s ++ tail) = Some s.
+(* FULL round trip (repaired code): [pb] returns the marshalled extra unchanged, which is the
+   protobuf round-trip law for bytes that proto.Marshal produced *)
+Lemma sb_roundtrip : forall pb s tail, sb_ok s -> len (sb_extra s) < 65536 ->
+  (sb_has_extra s = true -> pb (sb_extra s) = Some (sb_extra s)) ->
+  sb_read pb (sb_bytes s ++ tail) = Some s.
 Proof.
-  intros s tail Hx Hok.
-  assert (He : sb_extra s = []).
-  { apply len_zero_nil. unfold sb_has_extra in Hx. lia. }
-  rewrite sb_read_bytes by (auto; rewrite He; reflexivity). rewrite Hx.
-  destruct s as [v r t c e]. cbn in He. subst e. reflexivity.
+  intros pb s tail Hok Hl Hpb. rewrite sb_read_bytes by assumption.
+  destruct (sb_has_extra s) eqn:Hx.
+  - rewrite Hpb by reflexivity. destruct s; reflexivity.
+  - assert (He : sb_extra s = []).
+    { apply len_zero_nil. unfold sb_has_extra in Hx. lia. }
+    destruct s as [v r t c e]. cbn in He. subst e. reflexivity.
 Qed.
 
-Definition sb_witness : super_block :=
-  {| sb_version := 3; sb_rp := (0, 1, 2); sb_ttl := (15, 3); sb_compaction := 7;
-     sb_extra := [10; 9; 8; 10; 16; 4; 26; 3; 1; 2; 3] |}.
-
-Lemma sb_roundtrip_refuted : exists s, sb_ok s /\ len (sb_extra s) < 65536 /\
-  forall tail, sb_read (sb_bytes s ++ tail) <> Some s.
+(* truncated extra or extra that protobuf rejects: an error, never a different super block *)
+Lemma sb_read_sound : forall pb file s, sb_read pb file = Some s ->
+  8 <= len file /\ rp_from_byte (nth 1 file 0) = Some (sb_rp s) /\
+  sb_version s = nth 0 file 0 /\ sb_ttl s = (nth 2 file 0, nth 3 file 0) /\
+  sb_compaction s = be_decode (takeN 2 (dropN 4 file)) /\
+  let extra_size := be_decode (takeN 2 (dropN 6 file)) in
+  (if 0 <? extra_size
+   then len (takeN extra_size (dropN 8 file)) = extra_size /\ pb (takeN extra_size (dropN 8 file)) = Some (sb_extra s)
+   else sb_extra s = []).
 Proof.
-  exists sb_witness. split.
-  { unfold sb_ok. vm_compute. repeat split; reflexivity. }
-  split; [reflexivity|]. intros tail.
-  rewrite sb_read_bytes; [discriminate| |reflexivity].
-  unfold sb_ok. vm_compute. repeat split; reflexivity.
+  intros pb file s H. unfold sb_read in H.
+  destruct (len file <? 8) eqn:E; [discriminate|].
+  destruct (rp_from_byte (nth 1 file 0)) as [r|] eqn:Er; [|discriminate].
+  cbv zeta. cbv zeta in H.
+  destruct (0 <? be_decode (takeN 2 (dropN 6 file))) eqn:Ex.
+  - destruct (len (takeN (be_decode (takeN 2 (dropN 6 file))) (dropN 8 file)) <? be_decode (takeN 2 (dropN 6 file))) eqn:El;
+      [discriminate|].
+    destruct (pb (takeN (be_decode (takeN 2 (dropN 6 file))) (dropN 8 file))) as [e|] eqn:Ep; [|discriminate].
+    inversion H; subst. cbn.
+    pose proof (len_takeN_le _ (dropN 8 file) (be_decode (takeN 2 (dropN 6 file)))).
+    repeat split; try reflexivity; lia.
+  - inversion H; subst. cbn. repeat split; try reflexivity; lia.
 Qed.
 
 (* ---------- index entries ---------- *)
